@@ -106,6 +106,98 @@ pub fn judge(t: &Tree, hunk: usize, scratch: &Scratch, counters: &[AtomicU64; 2]
         }
         let _ = std::fs::remove_dir_all(&dest);
     }
+    // The same for interrupted versions: for every entry, a second backup of the tree without that
+    // entry is killed after each index hunk; the stitched version is then listed and
+    // restored by subtree and compared with its own full listing / full restore.
+    let removable: Vec<String> = t.keys().filter(|k| !k.is_empty()).cloned().collect();
+    for gone in removable {
+    let mut t2 = t.clone();
+    t2.retain(|p, _| *p != gone && !p.starts_with(&format!("{gone}/")));
+    if t2.len() < 2 {
+        continue;
+    }
+    let src2 = scratch.fresh("src2");
+    tree::materialize(&t2, &src2);
+    let base = crate::fmt06::Snap::load(&arch);
+    let probe = scratch.fresh("p");
+    base.store(&probe);
+    let opts = BOpts::new(hunk, 1 << 20, 1 << 20);
+    let icpt = crate::hook::Icpt::new(&probe, crate::hook::Plan::none());
+    let _ = run::do_backup(&probe, &src2, &opts, Some(&icpt), Flavor::Current);
+    let trace = icpt.take_log();
+    let mut points = Vec::new();
+    let mut after_hunk = false;
+    for r in trace.iter().filter(|r| r.is_mutating()) {
+        if after_hunk {
+            points.push(r.idx);
+        }
+        after_hunk = r.path.contains("/i/") && r.verb == conserve::transport::record::Verb::Write;
+    }
+    for k in points {
+        let a2 = scratch.fresh("a2");
+        base.store(&a2);
+        let ic = crate::hook::Icpt::new(&a2, crate::hook::Plan::crash(k, false));
+        let o = run::do_backup(&a2, &src2, &opts, Some(&ic), Flavor::Current);
+        if !o.crashed {
+            continue;
+        }
+        let (fo, full_list) = run::do_list(&a2, Sel::Band(1), "/", &[], run::NOHOOK);
+        if !fo.is_ok() {
+            continue; // the full listing itself is C03's and C08's business
+        }
+        let full_paths: Vec<String> = full_list.iter().map(|e| e.apath.clone()).collect();
+        let fdest = scratch.fresh("f2");
+        let _ = run::do_restore(&a2, &fdest, &RestoreArgs::band(1), run::NOHOOK, Flavor::Current);
+        let full_tree = tree::observe(&fdest).unwrap_or_default();
+        for s in &sels {
+            let expect: Vec<&String> = full_paths.iter().filter(|p| apath_under(s, p)).collect();
+            let (op, got) = run::do_list(&a2, Sel::Band(1), s, &[], run::NOHOOK);
+            counters[0].fetch_add(1, AO::Relaxed);
+            let got_p: Vec<&String> = got.iter().map(|e| &e.apath).collect();
+            if !op.is_ok() || got_p != expect {
+                v.push(Violation::new(
+                    format!("C12:listing-of-interrupted-version-by-subtree-differs-from-its-full-listing:{}", site_of(s)),
+                    format!(
+                        "tree {brief}, second version without /{gone} killed before op {k}: subtree {s} lists {got_p:?}, the full listing restricted to it is {expect:?}"
+                    ),
+                ));
+            }
+            // restore by subtree, for directories of the stitched version
+            if full_list.iter().any(|e| &e.apath == s && e.kind == "Dir") && s != "/" {
+                let key = &s[1..];
+                let dest = scratch.fresh("s2");
+                let ro = run::do_restore(
+                    &a2,
+                    &dest,
+                    &RestoreArgs {
+                        sel: Sel::Band(1),
+                        subtree: Some(s),
+                        exclude: &[],
+                        overwrite: false,
+                    },
+                    run::NOHOOK,
+                    Flavor::Current,
+                );
+                counters[1].fetch_add(1, AO::Relaxed);
+                let got = tree::observe(&dest).unwrap_or_default();
+                let under = |p: &str| p == key || p.starts_with(&format!("{key}/"));
+                let e_sub: Tree = full_tree.iter().filter(|(p, _)| under(p)).map(|(p, n)| (p.clone(), n.clone())).collect();
+                let g_sub: Tree = got.iter().filter(|(p, _)| under(p)).map(|(p, n)| (p.clone(), n.clone())).collect();
+                let diffs = tree::tree_diff(&e_sub, &g_sub, Cmp::FULL);
+                if ro.panicked.is_some() || !diffs.is_empty() {
+                    v.push(Violation::new(
+                        format!("C12:restore-of-interrupted-version-by-subtree-differs-from-its-full-restore:{}", site_of(s)),
+                        format!("tree {brief}, second version without /{gone} killed before op {k}: subtree {s}: {} {diffs:?}", ro.describe()),
+                    ));
+                }
+                let _ = std::fs::remove_dir_all(&dest);
+            }
+        }
+        let _ = std::fs::remove_dir_all(&a2);
+        let _ = std::fs::remove_dir_all(&fdest);
+    }
+    let _ = std::fs::remove_dir_all(&src2);
+    }
     v
 }
 
